@@ -35,7 +35,7 @@ func TestC07(t *testing.T) {
 		}
 		return info.Returned || info.EmitNotLast
 	}
-	o := lexgen.Opts{MaxModes: 3, ModeActs: true, Frags: true, Macros: false, ShuffleAct: true, Depth: 2, MaxRules: 4}
+	o := lexgen.Opts{MaxModes: 3, ModeActs: true, Frags: true, Macros: false, ShuffleAct: true, Depth: 2, MaxRules: 4, RepeatPop: true}
 	lexcheck.RunCheck(run, o, 320, 5000, 40, classify, nil)
 	if run.Replay == "" && run.Violations() == 0 {
 		run.RequireClass("depth>=2-and-returned", 20)
